@@ -25,8 +25,11 @@ mkdir -p "$out"
 log=$out/verify.log
 : > "$log"
 echo "base: $(git -C /repo rev-parse --short HEAD) apply: $applied" >> "$log"
-( cd "$W" && CARGO_TARGET_DIR=$T cargo build --offline 2>&1 | tail -2 ) >> "$log" 2>&1
-if [ ! -x $T/debug/p2sh ] || ! ( cd "$W" && CARGO_TARGET_DIR=$T cargo build --offline >/dev/null 2>&1 ); then echo "RESULT $prop/$var: BUILD-FAILS"; exit 4; fi
+FEAT=""; CLEAN=/repo/target/debug/p2sh
+# SEED_HOOKS=1: the demonstration drives the REPL through the scripted line source (feature verif_hooks)
+if [ -n "${SEED_HOOKS:-}" ]; then FEAT="--features verif_hooks"; CLEAN=/verif/target/p2sh-bin/debug/p2sh; fi
+( cd "$W" && CARGO_TARGET_DIR=$T cargo build --offline $FEAT 2>&1 | tail -2 ) >> "$log" 2>&1
+if [ ! -x $T/debug/p2sh ] || ! ( cd "$W" && CARGO_TARGET_DIR=$T cargo build --offline $FEAT >/dev/null 2>&1 ); then echo "RESULT $prop/$var: BUILD-FAILS"; exit 4; fi
 tests=$( cd "$W" && CARGO_TARGET_DIR=$T cargo test --offline 2>&1 | grep "test result" | head -1 )
 echo "tests: $tests" >> "$log"
 cp -r "$src"/. "$out"/ 2>/dev/null
@@ -35,7 +38,7 @@ cp $T/debug/p2sh /tmp/sv/p2sh.mutated
 demo_mut=na; demo_clean=na
 if [ -f "$out/demo.sh" ]; then
   ( cd "$out" && timeout 120 sh ./demo.sh /tmp/sv/p2sh.mutated ) >> "$log" 2>&1; demo_mut=$?
-  ( cd "$out" && timeout 120 sh ./demo.sh /repo/target/debug/p2sh ) >> "$log" 2>&1; demo_clean=$?
+  ( cd "$out" && timeout 120 sh ./demo.sh $CLEAN ) >> "$log" 2>&1; demo_clean=$?
 fi
 echo "demo with change: exit $demo_mut ; demo without: exit $demo_clean" >> "$log"
 ok=no
